@@ -211,7 +211,7 @@ def run(ctx):
 
 
 MANIFEST_ENTRY = {
-    "technique": "static analysis: MIR return-value / effect summaries (py/mirsum.py) of every I18nContext accessor (one signal read or written), template position of the accessor chain in t!, MIR provenance of the signal stored in a new context",
+    "technique": "static analysis: MIR return-value / effect summaries with closures inlined (py/mirsum.py) of every I18nContext accessor and of init_context_inner, abstract evaluation (rules/absint.py) of the t! expansion (the context read sits inside the emitted closure in all four expansions), MIR owner discipline of run_as_children",
     "level_text": "Structural clauses only: there is a single place where a context's locale lives and every accessor goes to it; the reactive closure emitted by t! contains the read; each context is built around its own new signal and reads its parent once, untracked. Histories over a live reactive graph are not applicable to static analysis and are not claimed.",
     "level_note": "Trusted: leptos signal semantics. Not decided / not applicable: behaviour over operation sequences.",
 }
